@@ -13,18 +13,18 @@ first = True
 for cn, cv in CL:
     for tn, tv in TE:
         name = "c06_cell_cl_%s_te_%s" % (cn, tn)
-        tier = "quick" if (cn, tn) in QUICK else "thorough"
+        tier = "quick"
         if first:
             out.append('''//@ props: C06
 //@ tier: quick
 //@ unwind: 5
-//@ unwindset: memchr=22 memrchr=22 memcmp=22 from_ascii_bytes_radix=22 from_str_radix=22 compare_lowercase_ascii=9 trim=16 next_match=16 c06_case=4
+//@ unwindset: memchr=22 memrchr=22 memcmp=22 from_ascii_bytes_radix=22 from_str_radix=22 compare_lowercase_ascii=9 trim=16 next_match=16 c06_case=4 c06_parse_u64=22
 //@ timeout: 900
 //@ encodes: BodyReader::for_response, BodyReader::header_defined, util::compare_lowercase_ascii, str::split/trim/parse::<u64>
 //@ vars: symbolic: response version 1.0/1.1, request method (9 standard), status 100..=999. Concrete per harness (one harness per menu cell): Content-Length in {absent, 0, 7, 18446744073709551615, 18446744073709551616, x, -1, " 7"} x Transfer-Encoding in {absent, chunked, Chunked, "gzip, chunked", "gzip,chunked ", gzip, chunkedx}
-//@ bounds: the 8 x 7 header menu (12 cells in the quick tier, all 56 in the thorough tier); full status / method / version ranges in every cell
+//@ bounds: the 8 x 7 header menu (all 56 cells in both tiers); full status / method / version ranges in every cell
 //@ outside: header strings outside the menu; several Content-Length / Transfer-Encoding fields (the lookup returns the first)
-//@ clause: no body for HEAD, 2xx to CONNECT, 1xx, 204, 304; else chunked iff HTTP/1.1 and the last... a listed coding is chunked (over Content-Length); else exactly Content-Length; else close-delimited, except 3xx (not 304) without framing header: no body; non-numeric Content-Length is an error
+//@ clause: no body for HEAD, 2xx to CONNECT, 1xx, 204, 304; else chunked iff HTTP/1.1 and a listed transfer coding is chunked (over Content-Length); else exactly Content-Length; else close-delimited, except 3xx (not 304) without framing header: no body; non-numeric Content-Length is an error
 ''')
             first = False
         else:
